@@ -7,15 +7,19 @@ position and stops existing there; every spelling the path admits (dotted string
 pure T, S-rooted); values: literals, T / Spec(T) copied from elsewhere in the target, the target
 itself, a self-referential list; missing in {None, dict, list, object factory, counting factory,
 factory raising on its first / second call}; assign() and Assign inside a tuple spec.
+Sub `argpath`: destination paths whose step ARGUMENTS are computed (T[...][T['K']['k1']], Path('a', Spec('K.k1')),
+T['a'][Val('b')]): the argument of the last step, of a middle step, of the step at which missing= attaches, of a
+step inside the tail missing= builds, and an argument that cannot be evaluated (an error, never "an absent segment").
 
-Oracle: ref_assign() - the corresponding plain Python assignment on an independently built copy.
+Oracle: ref_assign() - the corresponding plain Python assignment on an independently built copy; a computed step
+argument denotes the value it has on the target before the assignment (that is what reading the path does).
 """
 from hypothesis import strategies as st
 
 import glom
-from glom import Path, T, S, Spec, Assign, GlomError, PathAccessError
+from glom import Path, T, S, Spec, Val, Assign, GlomError, PathAccessError
 
-from ..runner import Sub, Mismatch
+from ..runner import Sub, Mismatch, HarnessBug
 from .. import targets as tg
 from .. import mutcommon as mc
 
@@ -23,11 +27,15 @@ PROPERTY = 'C11'
 RULE = ('targets: tree-shaped recipes (depth <= 3) incl. immutable and fault-injecting containers; destination paths of '
         '1-4 steps whose prefix stops existing at every possible position, in every admissible spelling; values '
         'literal / T / Spec / self-referential; missing factories incl. counting and raising ones. '
-        'Non-trivial = path length >= 2 and (missing used, or a fault / failure, or a T-valued source).')
+        'argpath: the same with step arguments computed from the target (T / Spec / Val) at the last, a middle, the '
+        'attaching and a missing-built step, and arguments that fail. '
+        'Non-trivial = path length >= 2 and (missing used, or a fault / failure, or a T-valued source, or a computed '
+        'step argument).')
 ASSUMPTIONS = [
     'reference = plain Python item/attribute assignment on an independently built copy of the same recipe',
     'wildcard destinations are covered by C14; atomicity is claimed for wildcard-free paths only',
     'targets are tree-shaped so that a position identifies an object (frame condition by position -> id)',
+    'a T / Spec step argument of a destination denotes its value on the target as it is before the assignment',
 ]
 
 
@@ -160,6 +168,215 @@ def gen(draw):
             'api': draw(st.sampled_from(['func', 'spec']))}
 
 
+# ---------------------------------------------------------------------------
+# computed step arguments (sub `argpath`)
+#
+# recipe['args'] = [[k, kind, name], ...]: step k of the destination is spelled with an argument that glom has to
+# evaluate; the value it denotes sits in a holder mapping added to the root of the target under HOLDER
+# (target[HOLDER][name], or target.K[name] when the root is an attribute object), so the oracle reads it from there.
+
+HOLDER = 'K'
+ARG_KINDS = ['T', 'T', 'Spec', 'SpecStr', 'Val']
+FAIL_KINDS = ['failT0', 'failT1', 'failSpec']       # arguments that cannot be evaluated
+_MUTABLE = (dict, list, tg.Obj)
+
+
+def _attr_names(cur):
+    return sorted(a for a in getattr(cur, '__dict__', {}) if isinstance(a, str) and not a.startswith('_'))
+
+
+def gen_args(draw, classes=('last', 'mid', 'attach', 'tail')):
+    trec = mc.gen_target(draw)
+    if trec[0] in ('list', 'rlist', 'lsub'):
+        # the holder is an entry of the root: a sequence root is put below a mapping / object
+        trec = [draw(st.sampled_from(['dict', 'rdict', 'obj'])), [['a', trec]]]
+    target = mc.build(trec).obj
+    cls = draw(st.sampled_from(classes))
+    if cls in ('last', 'mid'):
+        missing = draw(st.sampled_from([None, None, 'dict', 'count', 'list', 'obj']))
+    elif cls == 'fail':
+        missing = draw(st.sampled_from(['dict', 'dict', 'count', 'obj', 'list', None]))
+    else:
+        missing = draw(st.sampled_from(['dict', 'dict', 'count', 'count', 'obj', 'list', 'raise2']))
+    n = draw(st.sampled_from([1, 2, 2, 3, 3, 4] if cls == 'last' else [2, 3, 3, 4] if cls == 'tail' else [2, 2, 3, 3, 4]))
+    # b: index of the first absent parent segment (None: the prefix exists as far as the target reaches)
+    if cls == 'tail':
+        b = draw(st.sampled_from([0, 0] + list(range(n - 1))))
+    elif cls == 'attach':
+        b = draw(st.sampled_from(range(n - 1)))
+    elif cls == 'fail':
+        b = draw(st.sampled_from([None, None, None] + list(range(n - 1))))
+    else:
+        b = None
+    # where the computed arguments go
+    if cls == 'last':
+        prim = n - 1
+    elif cls == 'mid':
+        prim = draw(st.sampled_from(range(n - 1)))
+    elif cls == 'attach':
+        prim = b
+    elif cls == 'tail':
+        # (inside the tail that missing= builds: mostly not its last step)
+        prim = draw(st.sampled_from(list(range(b + 1, n - 1)) * 2 + [n - 1]))
+    else:
+        prim = draw(st.sampled_from(list(range(n - 1)) * 3 + [n - 1]))
+    argpos = set([prim])
+    for k in range(n):
+        if draw(st.integers(0, 3)) == 0:
+            argpos.add(k)
+    steps = []
+    cur, broken = target, False
+    i = 0
+    while i < n:
+        last = (i == n - 1)
+        seg = None
+        if not broken and i != b:
+            kind = mc.kind_of(cur)
+            if kind == 'map':
+                cands = sorted(dict.keys(cur), key=repr)
+                get = lambda s_: dict.__getitem__(cur, s_)
+            elif kind == 'seq':
+                cands = list(range(len(cur)))
+                get = lambda s_: (list if isinstance(cur, list) else tuple).__getitem__(cur, s_)
+            else:
+                cands = _attr_names(cur)
+                get = lambda s_: mc._getattr(cur, s_)
+            if not last:
+                good = [c for c in cands if isinstance(get(c), _MUTABLE)]
+                if good and draw(st.integers(0, 3)) < 3:
+                    cands = good
+            if cands and (not last or kind == 'seq' or draw(st.integers(0, 9)) < 6):
+                seg = draw(st.sampled_from(cands))
+                if kind == 'seq' and draw(st.booleans()):
+                    seg -= len(cur)
+            elif not last and b is None:
+                # nowhere to walk to: this step is the (absent) destination
+                n, last = i + 1, True
+        if seg is None:
+            # a segment that is not there
+            kind = mc.kind_of(cur) if not broken else 'built'
+            if kind == 'map':
+                seg = draw(st.sampled_from(['zz', 'new', 5]))
+            elif kind == 'seq':
+                seg = len(cur)              # out of range
+            elif kind == 'attr':
+                seg = draw(st.sampled_from(['zz', 'new']))
+            else:
+                seg = draw(st.sampled_from(['zz', 'new', 'a', 5, 0]))
+        kind = mc.kind_of(cur) if not broken else 'built'
+        if kind == 'attr':
+            op = 'P' if i in argpos else draw(st.sampled_from(['.', 'P']))
+        elif kind == 'built' and i not in argpos and isinstance(seg, str) and draw(st.integers(0, 4)) == 0:
+            op = '.'
+        else:
+            op = draw(st.sampled_from(['[', '[', 'P']))
+            if op == 'P' and kind == 'seq' and draw(st.booleans()):
+                seg = str(seg)
+        steps.append([op, seg])
+        if not broken:
+            try:
+                cur = mc.access(cur, op, seg)
+            except Exception:
+                broken = True
+        i += 1
+    argpos = sorted(k for k in argpos if k < n)
+    if not argpos or (prim >= n and n - 1 not in argpos):
+        argpos = sorted(set(argpos + [n - 1]))
+    for k in argpos:
+        if steps[k][0] == '.':
+            steps[k][0] = 'P'       # (an attribute step takes no argument expression; same access on an object)
+    args = []
+    for k in argpos:
+        fails = (cls == 'fail' and k == min(prim, n - 1))
+        args.append([k, draw(st.sampled_from(FAIL_KINDS if fails else ARG_KINDS)), 'k%d' % k])
+    holder = ['dict', [[name, ['i' if isinstance(steps[k][1], int) else 's', steps[k][1]]] for k, _, name in args]]
+    trec = [trec[0], list(trec[1]) + [[HOLDER, holder]]]
+    target = mc.build(trec).obj
+    return {'target': trec, 'steps': steps, 'args': args, 'val': gen_val(draw, target), 'missing': missing,
+            'api': draw(st.sampled_from(['func', 'spec'])), 'sp': ['path', 't']}
+
+
+def gen_args_s(draw):
+    """the same cases, spelled S-rooted (Path(S['tgt'], ...)): T in an argument still means the target"""
+    r = gen_args(draw, ('last', 'mid', 'attach', 'tail', 'fail', 'fail'))
+    r['sp'] = ['s-rooted']
+    return r
+
+
+def gen_argfail(draw):
+    """an argument that cannot be evaluated: the path denotes no place, whatever missing= is"""
+    return gen_args(draw, ('fail',))
+
+
+def _holder(root):
+    if isinstance(root, dict):
+        return dict.__getitem__(root, HOLDER)
+    return object.__getattribute__(root, '__dict__')[HOLDER]
+
+
+def ref_args(target, steps, args):
+    """the steps with every computed argument replaced by the value it denotes on the target as it is now
+    (plain Python: target['K'][name] / target.K[name]); an argument that cannot be evaluated is an error"""
+    out = list(steps)
+    for k in sorted(args):
+        kind, name = args[k]
+        if kind in FAIL_KINDS:
+            raise RefErr('arg', k, KeyError('nokey'))
+        v = steps[k][1] if kind == 'Val' else _holder(target)[name]
+        if type(v) is not type(steps[k][1]) or v != steps[k][1]:
+            raise HarnessBug('argpath recipe is inconsistent: step %d is %r, its argument denotes %r' % (k, steps[k], v))
+        out[k] = (steps[k][0], v)
+    return out
+
+
+def build_arg(kind, name, seg, root):
+    base = T[HOLDER] if isinstance(root, dict) else getattr(T, HOLDER)
+    if kind == 'T':
+        return base[name]
+    if kind == 'Spec':
+        return Spec(base[name])
+    if kind == 'SpecStr':
+        return Spec('%s.%s' % (HOLDER, name))
+    if kind == 'Val':
+        return Val(seg)
+    if kind == 'failT0':
+        return T['nokey'] if isinstance(root, dict) else T.nokey
+    if kind == 'failT1':
+        return base['nokey']
+    if kind == 'failSpec':
+        return Spec('%s.nokey' % HOLDER)
+    raise HarnessBug('unknown argument kind %r' % (kind,))
+
+
+def make_path_args(steps, spelling, argobjs):
+    """mc.make_path with the steps in `argobjs` spelled with their argument expression"""
+    if spelling == 't':
+        t = T
+        for k, (op, seg) in enumerate(steps):
+            if op == '.' and k in argobjs:
+                raise HarnessBug('an attribute step cannot carry a computed argument')
+            t = t[argobjs.get(k, seg)] if op == '[' else getattr(t, seg)
+        return t
+    parts = [S['tgt']] if spelling == 's-rooted' else []
+    for k, (op, seg) in enumerate(steps):
+        if k in argobjs:
+            a = argobjs[k]
+            if op == '.':
+                raise HarnessBug('an attribute step cannot carry a computed argument')
+            if op == 'P':
+                # (a bare T among the parts of a Path is a run of steps, not an argument)
+                parts.append(Spec(a) if isinstance(a, type(T)) else a)
+            else:
+                parts.append(T[a])
+        elif op == 'P':
+            parts.append(seg)
+        elif op == '[':
+            parts.append(T[seg])
+        else:
+            parts.append(getattr(T, seg))
+    return Path(*parts)
+
+
 def build_val(v, target):
     if v[0] == 'lit':
         return tg.build(v[1]).obj
@@ -186,22 +403,58 @@ def ref_val(v, target):
     return cur
 
 
+def label_args(ctx, target, steps, args, missing):
+    """classes of computed arguments by their place relative to the first absent parent segment"""
+    n = len(steps)
+    if any(kind in FAIL_KINDS for kind, _ in args.values()):
+        ctx.label('arg-fail')
+        if missing is not None and min(k for k, (kind, _) in args.items() if kind in FAIL_KINDS) < n - 1:
+            ctx.label('arg-fail-mid-missing')
+        return []
+    b, cur = None, target
+    for k in range(n - 1):
+        try:
+            cur = mc.access(cur, steps[k][0], steps[k][1])
+        except Exception:
+            b = k
+            break
+    labs = set()
+    for k, (kind, _) in args.items():
+        labs.add('argkind-' + kind)
+        if b is None or k < b:
+            labs.add('arg-last' if k == n - 1 else 'arg-mid')
+        elif missing is None:
+            labs.add('arg-beyond-break')
+        else:
+            labs.add('arg-attach' if k == b else 'arg-tail')
+            if k > b and k < n - 1:
+                labs.add('arg-tail-inner')
+    ctx.label(*sorted(labs))
+    return sorted(labs)
+
+
 def under(pos, prefix):
     return pos[:len(prefix)] == prefix
 
 
 def check(recipe, ctx):
     steps = [(op, seg) for op, seg in recipe['steps']]
+    args = dict((k, (kind, name)) for k, kind, name in recipe.get('args', []))
     vrec = recipe['val']
     # ---- reference world
     rb = mc.build(recipe['target'])
     rfac = ref_missing(recipe['missing'])
     rpos_before = mc.positions(rb.obj)
+    arglabs = []
     try:
         try:
             rval = ref_val(vrec, rb.obj)
         except Exception as e:
             raise RefErr('val', None, e)      # the value spec itself cannot be evaluated
+        if args:
+            arglabs = label_args(ctx, rb.obj, steps, args, recipe['missing'])
+            # every computed argument denotes its value on the target as it is BEFORE the assignment
+            steps = ref_args(rb.obj, steps, args)
         ref_assign(rb.obj, steps, rval, rfac)
         exp = ('ok',)
     except RefErr as e:
@@ -209,12 +462,21 @@ def check(recipe, ctx):
     ctx.label('exp-' + exp[0], 'len-%d' % len(steps), 'missing-' + str(recipe['missing']), 'val-' + vrec[0])
     if exp[0] == 'err':
         ctx.label('err-' + exp[1])
-    ctx.nontrivial(len(steps) >= 2 and (recipe['missing'] is not None or exp[0] == 'err' or vrec[0] in ('T', 'Spec')))
+    else:
+        ctx.label(*[l + '-ok' for l in arglabs if not l.startswith('argkind-')])
+    ctx.nontrivial(len(steps) >= 2 and (recipe['missing'] is not None or exp[0] == 'err' or vrec[0] in ('T', 'Spec')
+                                        or bool(args)))
     for sp in mc.spellings(steps):
+        if (args and sp == 'str') or ('sp' in recipe and sp not in recipe['sp']):
+            continue
         gb = mc.build(recipe['target'])
         g = gb.obj
         gfac = make_missing(recipe['missing'])
-        path = mc.make_path(steps, sp)
+        if args:
+            path = make_path_args(steps, sp, dict((k, build_arg(kind, name, steps[k][1], g))
+                                                  for k, (kind, name) in args.items()))
+        else:
+            path = mc.make_path(steps, sp)
         val = build_val(vrec, g)
         before = tg.snapshot(g)
         pos_before = mc.positions(g)
@@ -250,6 +512,16 @@ def check(recipe, ctx):
             if vrec[0] in ('T', 'Spec'):
                 if back is not src and not (isinstance(src, tg._ATOM) and back == src):
                     raise Mismatch('read-back', '%s: expected the source object itself, got %r' % (where, back))
+            if args:
+                # "reading the path yields val": the same path object, read by glom
+                try:
+                    gback = glom.glom(g, path, scope=scope)
+                except Exception as e:
+                    raise Mismatch('read-back', '%s: glom(target, path) afterwards raised %s: %r'
+                                   % (where, type(e).__name__, getattr(e, 'args', e)))
+                if not tg.same(gback, back):
+                    raise Mismatch('read-back', '%s: glom(target, path) afterwards gives %r, the assigned slot holds %r'
+                                   % (where, gback, back))
             if vrec[0] == 'lit' and vrec[1][0] == 'odict':
                 # only plain dict / list / tuple / set literals are templates that are rebuilt; any other object is
                 # assigned as it is
@@ -270,6 +542,9 @@ def check(recipe, ctx):
                                % (where, rfac.calls, gfac.calls))
         else:
             if err is None:
+                if exp[1] == 'arg':
+                    raise Mismatch('failed-argument-ignored' + ('-last' if exp[2] == len(steps) - 1 else '-mid'), '%s: the argument of step %s cannot be evaluated (%r): the path '
+                                   'denotes no place; glom returned %r, target now %r' % (where, exp[2], exp[3], res, g))
                 raise Mismatch('missing-error', '%s: the plain assignment fails (%s at step %s: %r); glom returned %r'
                                % (where, exp[1], exp[2], exp[3], res))
             d = tg.snapshot_diff(before, tg.snapshot(g))
@@ -288,55 +563,147 @@ def check(recipe, ctx):
 # ---------------------------------------------------------------------------
 # S-rooted destinations: put-get through the scope
 
+class NS(object):
+    """a caller-owned attribute object bound in the scope (like S.globals)"""
+    def __init__(self, **kw):
+        self.__dict__.update(kw)
+
+    def __repr__(self):
+        return 'NS(%s)' % ', '.join('%s=%r' % kv for kv in sorted(self.__dict__.items()))
+
+
+SDESTS = ['name', 'name', 'box.k', 'box.new', 'ns.last', 'ns.cur', 'q.x', 'q.x.y', 'box.m.x']
+
+
 def gen_sassign(draw):
     return {'wrap': draw(st.sampled_from(['bare', 'spec', 'auto', 'coalesce', 'tuple1', 'pipe', 'or', 'dictval'])),
-            'pre': draw(st.sampled_from([None, 'old-value'])),
-            'dest': draw(st.sampled_from(['name', 'name', 'box.k', 'box.new'])),
-            'val': draw(st.sampled_from([['lit', ['i', 42]], ['T', []], ['lit', ['list', [['i', 1]]]]]))}
+            'pre': draw(st.sampled_from([None, 'old-value', 'S-bound'])),
+            'dest': draw(st.sampled_from(SDESTS)),
+            'val': draw(st.sampled_from([['lit', ['i', 42]], ['T', []], ['lit', ['list', [['i', 1]]]]])),
+            # how the destination / the later read spell the path: S['name']..., S.name..., Path(S, 'name', ...)
+            'spell': draw(st.sampled_from(['item', 'attr', 'path'])),
+            'reader': draw(st.sampled_from(['item', 'attr', 'path'])),
+            'missing': draw(st.sampled_from([None, 'dict', 'dict']))}
+
+
+def _sget(cur, seg):
+    return dict.__getitem__(cur, seg) if isinstance(cur, dict) else getattr(cur, seg)
+
+
+def _sset(cur, seg, val):
+    if isinstance(cur, dict):
+        cur[seg] = val
+    else:
+        setattr(cur, seg, val)
+
+
+def ref_sassign(cur, segs, val, missing):
+    """plain Python: the scope is a mapping (S.name means S['name']), what hangs below it is item / attribute
+    assignment; with missing only the absent segments are created and attached last"""
+    for i, seg in enumerate(segs[:-1]):
+        try:
+            cur = _sget(cur, seg)
+        except (KeyError, AttributeError) as e:
+            if missing is None:
+                raise RefErr('access', i, e)
+            new = {}
+            ref_sassign(new, segs[i + 1:], val, missing)
+            _sset(cur, seg, new)
+            return
+    _sset(cur, segs[-1], val)
+
+
+def spath(segs, spelling, model):
+    """the S-rooted path over `segs` in one spelling; below the first segment the step is the one that fits the
+    container the model has there (item for mappings and for what missing= builds, attribute for NS)"""
+    if spelling == 'path':
+        return Path(S, *segs)
+    t = S[segs[0]] if spelling == 'item' else getattr(S, segs[0])
+    cur = model.get(segs[0])
+    for seg in segs[1:]:
+        if isinstance(cur, NS):
+            t = getattr(t, seg)
+            cur = getattr(cur, seg, None)
+        else:
+            t = t[seg]
+            cur = cur.get(seg) if isinstance(cur, dict) else None
+    return t
 
 
 def check_sassign(recipe, ctx):
     from glom import Auto, Coalesce, Pipe, Or
     target = {'t': 1}
-    box = {'k': 'box-old'}
-    scope = {'box': box}
-    if recipe['pre'] is not None:
-        scope['name'] = recipe['pre']
+    pre = recipe['pre']
+    spell, rspell, missing = recipe.get('spell', 'item'), recipe.get('reader', 'item'), recipe.get('missing')
+
+    def world():
+        sc = {'box': {'k': 'box-old'}, 'ns': NS(cur='ns-old')}
+        if pre == 'old-value':
+            sc['name'] = pre
+        return sc
+    scope, model = world(), world()
+    if pre == 'S-bound':
+        model['name'] = 'old-value'
     val = build_val(recipe['val'], target)
     expected_val = target if recipe['val'][0] == 'T' else tg.build(recipe['val'][1]).obj
     dest = recipe['dest']
-    if dest == 'name':
-        path, reader = S['name'], S['name']
-    else:
-        key = dest.split('.')[1]
-        path, reader = S['box'][key], S['box'][key]
-    a = Assign(path, val)
+    segs = dest.split('.')
+    path, reader = spath(segs, spell, model), spath(segs, rspell, model)
+    try:
+        ref_sassign(model, segs, expected_val, missing)
+        exp = 'ok'
+    except RefErr:
+        exp = 'err'
+    a = Assign(path, val, missing=dict if missing == 'dict' else None)
     wrap = recipe['wrap']
     step = {'bare': a, 'spec': Spec(a), 'auto': Auto(a), 'coalesce': Coalesce(a), 'tuple1': (a,), 'pipe': Pipe(a),
             'or': Or(a), 'dictval': a}[wrap]
     ctx.nontrivial(wrap != 'bare')
-    ctx.label('wrap-' + wrap, 'dest-' + dest)
-    where = 'glom(%r, (%r, %r), scope=%r)' % (target, step, reader, scope)
-    if wrap == 'dictval':
+    ctx.label('wrap-' + wrap, 'dest-' + dest, 'spell-' + spell, 'reader-' + rspell, 'exp-' + exp, 'pre-' + str(pre))
+    if spell != 'item':
+        ctx.label('sfirst-attr-single' if len(segs) == 1 else 'sfirst-attr-multi')
+        if exp == 'ok':
+            ctx.label('sfirst-attr-single-ok' if len(segs) == 1 else 'sfirst-attr-multi-ok')
+    if segs[0] == 'q' and missing is not None:
+        ctx.label('missing-first-absent')
+    if dest == 'box.m.x' and missing is not None:
+        ctx.label('missing-later-absent')
+    binder = (S(name='old-value'),) if pre == 'S-bound' else ()
+    where = 'glom(%r, %r, scope=%r)' % (target, binder + (step, reader), scope)
+    if exp == 'err':
+        # a parent segment is absent and there is no missing=: an error, nothing changes
+        try:
+            res = glom.glom(target, binder + (({'x': a},) if wrap == 'dictval' else (step,)), scope=scope)
+        except Exception:
+            pass
+        else:
+            raise Mismatch('missing-error', '%s: segment %r of the destination is absent and no missing= is given; the '
+                           'Assign returned %r' % (where, segs[0] if segs[0] == 'q' else segs[1], res))
+    elif wrap == 'dictval':
         # a dict value is a sibling position: what it binds in the scope is invisible afterwards (C07);
         # only check that the call works and the caller's mapping is left alone
         try:
-            glom.glom(target, {'x': a}, scope=scope)
+            glom.glom(target, binder + ({'x': a},), scope=scope)
         except Exception as e:
             raise Mismatch('spurious-error', '%s: %r' % (where, e))
     else:
         try:
-            got = glom.glom(target, (step, reader), scope=scope)
+            got = glom.glom(target, binder + (step, reader), scope=scope)
         except Exception as e:
             raise Mismatch('put-get', '%s: reading the assigned scope name back raised %s: %s'
                            % (where, type(e).__name__, str(e).splitlines()[-1][:200]))
         same = (got is expected_val) if recipe['val'][0] == 'T' else (got == expected_val)
         if not same:
             raise Mismatch('put-get', '%s: read back %r, expected %r' % (where, got, expected_val))
-    # the caller's scope mapping itself is never modified (its values may be: box is caller-owned and mutable)
-    if set(scope) != ({'box', 'name'} if recipe['pre'] is not None else {'box'}) or scope.get('name') != recipe['pre']:
+    # the caller's scope mapping itself is never modified (its values may be: box and ns are caller-owned and mutable)
+    if set(scope) != ({'box', 'ns', 'name'} if pre == 'old-value' else {'box', 'ns'}) or \
+            scope.get('name') != (pre if pre == 'old-value' else None):
         raise Mismatch('caller-scope-modified', '%s: caller mapping is now %r' % (where, scope))
-    ctx.outcome([wrap, dest])
+    # ... and those caller-owned objects are edited exactly like the plain Python assignment edits them
+    if scope['box'] != model['box'] or scope['ns'].__dict__ != model['ns'].__dict__:
+        raise Mismatch('wrong-effect', '%s: the caller-owned objects in the scope are now box=%r ns=%r, the plain assignment '
+                       'gives box=%r ns=%r' % (where, scope['box'], scope['ns'], model['box'], model['ns']))
+    ctx.outcome([wrap, dest, spell, exp])
 
 
 def gen_wild(draw):
@@ -355,6 +722,17 @@ def check_wild(recipe, ctx):
 SUBS = [
     Sub('assign', check, gen=gen, quick=4000, thorough=15000,
         floors={'exp-ok': 0.2, 'exp-err': 0.2, 'spelling-str': 0.1, 'spelling-t': 0.02}),
+    Sub('argpath', check, gen=gen_args, quick=1000, thorough=6000,
+        floors={'arg-last-ok': 0.15, 'arg-mid-ok': 0.045, 'arg-attach-ok': 0.06, 'arg-tail-ok': 0.08,
+                'arg-tail-inner-ok': 0.02, 'spelling-t': 0.18, 'argkind-T': 0.3, 'argkind-Spec': 0.1,
+                'argkind-SpecStr': 0.07, 'argkind-Val': 0.06}),
+    Sub('argfail', check, gen=gen_argfail, quick=320, thorough=2000,
+        floors={'arg-fail-mid-missing': 0.3, 'spelling-t': 0.12}),
+    Sub('argpath-s', check, gen=gen_args_s, quick=400, thorough=2500,
+        floors={'arg-last-ok': 0.1, 'arg-mid-ok': 0.03, 'arg-attach-ok': 0.03, 'arg-tail-ok': 0.05, 'arg-fail': 0.04}),
     Sub('wild', check_wild, gen=gen_wild, quick=1500, thorough=5000, floors={'wild-2': 0.1, 'wild-3': 0.1}),
-    Sub('sassign', check_sassign, gen=gen_sassign, quick=400, thorough=1500),
+    Sub('sassign', check_sassign, gen=gen_sassign, quick=1000, thorough=5000,
+        floors={'spell-attr': 0.13, 'spell-path': 0.13, 'reader-attr': 0.13, 'reader-path': 0.13,
+                'sfirst-attr-single-ok': 0.05, 'sfirst-attr-multi-ok': 0.2, 'missing-first-absent': 0.06,
+                'missing-later-absent': 0.02, 'exp-err': 0.05, 'pre-S-bound': 0.15}),
 ]
